@@ -66,6 +66,18 @@ def run(res, tier, br, model_ok=True, search=False):
     for nm, tx in families.extra_conforming():
         q = _P(); q.name, q.text, q.kind, q.productions, q.functions, q.items = nm, tx, "c", {}, [1, 2], [1, 2, 3, 4]
         progs.append(q)
+    # every binary operator between every kind of operand, correctly spaced: nothing is reported on that line
+    from props.C02 import BIN, LEFT, RIGHT
+    combos = [(op, lk, rk) for op in BIN for lk in LEFT for rk in RIGHT]
+    from impl import pipeline as _pipe
+    for op, lk, rk in (combos if big else rng.sample(combos, 250)):
+        src = "int\tf(int a, int b)\n{\n\tx = %s %s %s;\n\treturn (a);\n}\n" % (LEFT[lk], op, RIGHT[rk])
+        r = _pipe("m.c", src)
+        res.count("conforming.matrix", 1)
+        bad = [(d[0], d[3][0][1]) for d in r["diags"] if d[3] and d[3][0][0] == 3] if r["outcome"] == "ok" else [(r["outcome"], 0)]
+        if bad:
+            res.report(f"conforming:{bad[0][0]}", f"`{LEFT[lk]} {op} {RIGHT[rk]}` (left={lk}, right={rk}) is reported: {bad[:3]}",
+                       {"kind": "conforming-line", "name": "m.c", "src": src, "line": 3})
     outs = faults.run_many([(p.name, p.text) for p in progs])
     from impl import pipeline
     prods = collections.Counter()
@@ -104,6 +116,11 @@ def run(res, tier, br, model_ok=True, search=False):
 
 def replay(rp):
     from impl import pipeline
+    if rp.get("kind") == "conforming-line":
+        r = pipeline(rp["name"], rp["src"])
+        bad = [(d[0], d[3][0][1]) for d in r["diags"] if d[3] and d[3][0][0] == rp["line"]]
+        print(rp["src"]); print("on line", rp["line"], ":", bad)
+        return 1 if (bad or r["outcome"] != "ok") else 0
     if rp.get("kind") != "conforming":
         print("replay:", rp.get("kind"), rp.get("broken"))
         return 1
